@@ -61,6 +61,7 @@ NDARRAYS = {
 }
 
 
+PERMS = {2: [[0, 1], [1, 0]], 3: [[0, 1, 2], [1, 0, 2], [0, 2, 1], [2, 1, 0], [1, 2, 0], [2, 0, 1]]}
 FLOAT_HOOK = None      # C33 replaces float values by opaque bit patterns
 
 
@@ -71,7 +72,7 @@ class Pool:
         self.dict_missing = dict_missing
         # ints = [i0, i1 (64-bit), j0, j1 (32-bit), p0 (1..500)];  ks = [g0, g1 (float kind), s0, s1 (string), c0 (ploidy), a0, a1 (allele)]
         self.v = {'i': ints[0:2], 'j': ints[2:4], 'p': ints[4:5], 'f': floats, 'g': ks[0:2], 's': ks[2:4], 'c': ks[4:5],
-                  'a': ks[5:7], 'b': bools, 'm': miss, 'n': lens}
+                  'a': ks[5:7], 'q': ks[7:8], 'b': bools, 'm': miss, 'n': lens}
         self.c = {k: 0 for k in self.v}
 
     def nx(self, k):
@@ -119,7 +120,11 @@ def mk(t, P, allow_missing=True):
         return {freeze(mk(t.key_type, P, allow_missing=False)): mk(t.value_type, P, allow_missing=P.dict_missing)
                 for _ in range(P.nx('n'))}
     if isinstance(t, T.tstruct):
-        return Struct(**{f: mk(ft, P) for f, ft in t.items()})
+        # the VALUE's field order is a symbolic permutation of the type's (Struct.__eq__ and typecheck ignore order)
+        vals = [(f, mk(ft, P)) for f, ft in t.items()]
+        perms = PERMS[len(vals)] if len(vals) in PERMS else [list(range(len(vals)))]
+        order = perms[P.nx('q') % len(perms)] if len(perms) > 1 else perms[0]
+        return Struct(**{vals[i][0]: vals[i][1] for i in order})
     if isinstance(t, T.ttuple):
         return tuple(mk(x, P) for x in t.types)
     if isinstance(t, T.tinterval):
@@ -244,7 +249,9 @@ def catalogue(tier):
           T.tstruct(a=T.tarray(T.tfloat64), b=T.tstruct(c=T.tcall)), T.ttuple(T.tset(T.tstr), T.tinterval(T.tint32)),
           T.tarray(T.tinterval(L)), T.tdict(T.ttuple(T.tint32, T.tstr), T.tint32), T.tset(T.tarray(T.tint32)),
           T.tarray(T.tset(T.tint32)), T.tinterval(T.tstruct(a=T.tint32)), T.tstruct(a=T.tdict(T.tstr, T.tint32), b=T.ttuple(T.tbool, T.tfloat32)),
-          T.tarray(T.tndarray(T.tfloat64, 1)), T.tdict(T.tstr, T.tdict(T.tstr, T.tcall))]
+          T.tarray(T.tndarray(T.tfloat64, 1)), T.tdict(T.tstr, T.tdict(T.tstr, T.tcall)),
+          T.tinterval(T.tstruct(a=T.tint32, b=T.tstr)), T.tdict(T.tstr, T.tstruct(a=T.tint32, b=T.tbool, c=T.tstr)),
+          T.ttuple(T.tstruct(a=T.tstr, b=T.tint64), T.tbool)]
     if tier == 'quick':
         out = list(prims)
         out += [T.tarray(T.tfloat64), T.tarray(T.tcall), T.tset(T.tstr), T.tdict(T.tstr, T.tint32), T.tdict(T.tint32, T.tfloat64),
@@ -268,18 +275,18 @@ def catalogue(tier):
 
 
 SIG = ('i0: int, i1: int, j0: int, j1: int, p0: int, f0: float, f1: float, g0: int, g1: int, s0: int, s1: int, c0: int, '
-       'a0: int, a1: int, b0: bool, b1: bool, m0: bool, m1: bool, m2: bool, n0: int, n1: int')
+       'a0: int, a1: int, q0: int, b0: bool, b1: bool, m0: bool, m1: bool, m2: bool, n0: int, n1: int')
 PRE = '''    pre: -2**63 <= i0 < 2**63 and -2**63 <= i1 < 2**63 and 1 <= p0 <= 500
     pre: -2**31 <= j0 < 2**31 and -2**31 <= j1 < 2**31
-    pre: 0 <= g0 < 4 and 0 <= g1 < 4 and 0 <= s0 < 3 and 0 <= s1 < 3 and 0 <= c0 < 3 and 0 <= a0 < 3 and 0 <= a1 < 3
+    pre: 0 <= g0 < 4 and 0 <= g1 < 4 and 0 <= s0 < 3 and 0 <= s1 < 3 and 0 <= c0 < 3 and 0 <= a0 < 3 and 0 <= a1 < 3 and 0 <= q0 < 6
     pre: 0 <= n0 <= 2 and 0 <= n1 <= {N1MAX}'''
-ARGS = '[i0, i1, j0, j1, p0], [f0, f1], [g0, g1, s0, s1, c0, a0, a1], [b0, b1], [m0, m1, m2], [n0, n1]'
-ARGN = ['i0', 'i1', 'j0', 'j1', 'p0', 'f0', 'f1', 'g0', 'g1', 's0', 's1', 'c0', 'a0', 'a1', 'b0', 'b1', 'm0', 'm1', 'm2', 'n0', 'n1']
+ARGS = '[i0, i1, j0, j1, p0], [f0, f1], [g0, g1, s0, s1, c0, a0, a1, q0], [b0, b1], [m0, m1, m2], [n0, n1]'
+ARGN = ['i0', 'i1', 'j0', 'j1', 'p0', 'f0', 'f1', 'g0', 'g1', 's0', 's1', 'c0', 'a0', 'a1', 'q0', 'b0', 'b1', 'm0', 'm1', 'm2', 'n0', 'n1']
 
 
 def unpack(a):
     return ([a['i0'], a['i1'], a['j0'], a['j1'], a['p0']], [a['f0'], a['f1']],
-            [a['g0'], a['g1'], a['s0'], a['s1'], a['c0'], a['a0'], a['a1']], [a['b0'], a['b1']],
+            [a['g0'], a['g1'], a['s0'], a['s1'], a['c0'], a['a0'], a['a1'], a['q0']], [a['b0'], a['b1']],
             [a['m0'], a['m1'], a['m2']], [a['n0'], a['n1']])
 
 
